@@ -318,6 +318,8 @@ def ownership(contract, cfg_key, cfg_ty, owner_field, pending_key):
         nominee = sv_(W, 'nominee')
         msg = W.mk.variant(ty, 'SetOwner', crate=crate, new_owner_addr=nominee)
         n = 0
+        q = hub_querier_template(W) if contract == 'hub' else (W.querier_template() if hasattr(W, 'querier_template') else None)
+        raw_scenario(W, 'execute', msg, W.principals['owner'], querier=q)
         for st, res in W.execute(msg, W.principals['owner']):
             if not is_ok(res):
                 continue
@@ -332,6 +334,8 @@ def ownership(contract, cfg_key, cfg_ty, owner_field, pending_key):
         S = W2.I.summ
         msg = W2.mk.variant(ty, 'AcceptOwnership', crate=crate)
         n = 0
+        q2 = hub_querier_template(W2) if contract == 'hub' else (W2.querier_template() if hasattr(W2, 'querier_template') else None)
+        raw_scenario(W2, 'execute', msg, W2.principals['pending'], querier=q2)
         for st, res in W2.execute(msg, W2.principals['pending']):
             if not is_ok(res):
                 continue
@@ -371,6 +375,30 @@ def ORACLE(v, scn, out):
     if key.startswith('hub_update_config:'):
         from checks.c20 import ORACLE as O20
         return O20(v, scn, out)
+    if ':set_owner:' in key or ':accept:' in key:
+        import base64, json as js
+        from smir import rawstore
+        res = out.get('result', {})
+        if 'ok' not in res:
+            return []
+        contract = key.split(':')[0]
+        ck, of, pk = {'hub': (b'\x00\x06config', 'creator', b'\x00\x08newowner'), 'reward': (b'\x00\x06config', 'owner', b'\x00\x08newowner'),
+                      'dispatcher': (b'config', 'owner', b'newowneraddr'), 'registry': (b'config', 'owner', b'newowneraddr')}[contract]
+
+        def items(pairs):
+            return {base64.b64decode(k_): js.loads(base64.b64decode(v_)) for k_, v_ in pairs if base64.b64decode(k_) in (ck, pk)}
+        pre, post = items(scn['storage']), items(out.get('storage', []))
+        canon = lambda a: base64.b64encode(rawstore.canonical(a)).decode()   # noqa
+        what = key.split(':', 1)[1]
+        if what == 'set_owner:owner':
+            return [] if post[ck][of] == pre[ck][of] else ['owner changed by a nomination']
+        if what == 'set_owner:pending':
+            nominee = scn['msg']['set_owner']['new_owner_addr']
+            got = list(post[pk].values())[0] if isinstance(post[pk], dict) else post[pk]
+            return [] if got == canon(nominee) else ['recorded nominee %r, nominated %s' % (got, nominee)]
+        if what == 'accept:owner':
+            return [] if post[ck][of] == canon(scn['info']['sender']) else ['owner after acceptance is not the nominee']
+        return None
     if key.endswith(':unauthorised'):
         return ['accepted: ' + str(out['result'])[:200]] if 'ok' in out.get('result', {}) else []
     return None
